@@ -102,6 +102,12 @@ CLAIMED = {
          'Trusted: Lean kernel, Mathlib, the generator / XML rendering / independent reader; XML parsing, parent-child wiring and longest-chain walk are glue covered on strictly serial trees by the correspondence run only.',
          'Lean 4 induction over the joint chain (exp6 conjugation) + generated-document correspondence + on-arm falsifier',
          'DESIGN.md section 5 C13'),
+ 'C08': ('Partial proof: machine-checked theorems (Lean 4) about the Newton-Euler recursion modelled over lists of links of any length: superposition (a run with rates (qd, qdd_a+qdd_b), incoming acceleration and tip wrench sums equals the run carrying all velocity-product terms plus a linear zero-velocity run), '
+         'hence torque = M*qdd + c(q,qd) + g(q) + J^T F with the four terms defined as the library defines them (the recursion called with selected zeros), for every chain, state, gravity and tip wrench; and positive semi-definiteness of the closed form sum J_i^T G_i J_i. '
+         'The model is tied to fmr.InverseDynamics by a differential run. Symmetry/definiteness of MassMatrix itself, equality with the closed form, FD inverting ID, agreement of the Arm-level re-implementations, passivity, the gravity gradient and energy conservation are decided on the implementation (finite differences; labelled sampled).',
+         'Trusted: Lean kernel, Mathlib, chain generators, independent link Jacobians and finite differences in the harness; np.linalg.inv is an oracle.',
+         'Lean 4 induction over links (superposition of the Newton-Euler recursion) + differential correspondence + identity falsifier on the MR functions and Arm methods',
+         'DESIGN.md section 5 C08'),
 }
 NA_REASON = 'check not built yet in this round (work in progress; DESIGN.md section 8 gives the build order)'
 
